@@ -48,3 +48,7 @@ Proof. exact unreferenced_services_change_no_answer. Qed.
 Theorem C01_a_change_to_unreferenced_secrets_changes_no_answer :
   forall cs l' q, (forall g, listeners_agree cs l' g) -> decide (with_secrets cs l') q = decide cs q.
 Proof. exact unreferenced_secrets_change_no_answer. Qed.
+
+Theorem C01_a_change_to_namespaces_no_selector_notices_changes_no_answer :
+  forall cs l' q, selectors_agree cs l' -> decide (with_namespaces cs l') q = decide cs q.
+Proof. exact irrelevant_namespace_changes_change_no_answer. Qed.
